@@ -124,7 +124,7 @@ def evaluate(case):
             which = [n for n, a, b in zip(('filter', 'breakpoint', 'connection', 'recorded'), before, after) if a != b]
             V.append(Violation('list.frame', case, dict(detail, changed=which)))
         if case['matcher'] == 'bad':
-            if not any('Failed to parse' in x for x in e1):
+            if not e1:      # reported as an error: at least one line on the error stream, whatever its wording
                 V.append(Violation('list.malformed_not_reported', case, dict(detail, err=e1)))
         elif e1:
             V.append(Violation('list.error', case, dict(detail, err=e1)))
